@@ -96,6 +96,10 @@ def stepLine (st : Unit) (line : String) : Unit × String :=
       | (.ok o, n) => (st, s!"{showOut o} calls={n}")
       | (.error x, n) => (st, s!"escape {showExc x} calls={n}")
     | _, _, _ => (st, "bad-op")
+  | ["opburst", cap, queued, n] =>
+    match cap.toNat?, queued.toNat?, n.toNat? with
+    | some c, some q, some k => (st, " ".intercalate ((opBurst c q k).map fun x => match x with | .wait => "Wait" | .failed => "Fail"))
+    | _, _, _ => (st, "bad-op")
   | "CONN" :: envs =>
     let parsed : Option (List (HandlerEnv Nat)) := envs.mapM fun t =>
       match t.splitOn "," with
